@@ -294,6 +294,11 @@ func genValue(t *rapid.T, label string) *big.Int {
 		b := rapid.SampledFrom([]uint{31, 32, 33, 62, 63, 64, 65, 126, 127, 128, 129, 130, 192, 256}).Draw(t, label+"b")
 		v = new(big.Int).Lsh(big.NewInt(1), b)
 		v.Add(v, big.NewInt(int64(rapid.IntRange(-3, 3).Draw(t, label+"d"))))
+		if gen.Pick(t, 4, label+"pow2diff") == 0 {
+			// 2^b - 2^i: a word of ones above bit i (clearing or setting bit i carries through it)
+			v = new(big.Int).Lsh(big.NewInt(1), b)
+			v.Sub(v, new(big.Int).Lsh(big.NewInt(1), uint(rapid.IntRange(0, int(b)-1).Draw(t, label+"pi"))))
+		}
 	case 3:
 		v = big.NewInt(rapid.Int64().Draw(t, label+"i"))
 	case 4:
@@ -327,6 +332,10 @@ func genCase(t *rapid.T) Case {
 		s.Y = rapid.IntRange(0, poolSize-1).Draw(t, "y")
 		s.R = rapid.IntRange(0, poolSize-1).Draw(t, "r")
 		s.N = int64(rapid.Uint32().Draw(t, "n"))
+		if (s.Op == "SetBit" || s.Op == "Bit") && gen.Pick(t, 2, "bitidx") == 0 {
+			// bit indices at the word boundaries, with either bit value
+			s.N = int64([]int{0, 1, 30, 31, 32, 33, 62, 63, 64, 65, 126, 127, 128, 129}[gen.Pick(t, 14, "bitk")]) + int64(gen.Pick(t, 2, "bitv"))<<9
+		}
 		if s.Op == "SetInt64" || s.Op == "SetUint64" || s.Op == "Rand" {
 			s.N = rapid.Int64().Draw(t, "n64")
 		}
